@@ -20,5 +20,6 @@ pub const APPLICATION_NAME: &str = env!("CARGO_PKG_NAME");
 /// size of the output buffer in the graphical interface (in bytes)
 pub const GUI_OUTPUT_BUFFER_SIZE: usize = 1024;
 
-/// size of the call stack of the worker thread (in bytes)
-pub const CALL_STACK_SIZE: usize = 8 * 1024 * 1024;
+/// size of the call stack of the thread the interpreter runs on (in bytes);
+/// must hold MAX_RECURSION_DEPTH nested evaluations: in debug builds these need more than the 8 MiB of a default main thread
+pub const CALL_STACK_SIZE: usize = 32 * 1024 * 1024;
